@@ -67,6 +67,16 @@ func Name(prefix, g string) string {
 	if strings.ContainsAny(g, " ") || g == "" {
 		return g
 	}
+	// the real names are prefixes of one another (g3 < g1 < g2), so that a key scan or an index
+	// clean-up that forgets a terminator shows up as one graph affecting another
+	switch g {
+	case "g1":
+		return prefix + "g1"
+	case "g2":
+		return prefix + "g1x"
+	case "g3":
+		return prefix + "g"
+	}
 	return prefix + g
 }
 
